@@ -72,7 +72,8 @@ def make_script(sc: dict, i: int):
                 rr = h(seed, ident, t, k, e, a)
                 if is_persistent(typ, a):
                     if not sc.get("sparse_persistent") or rr % 4 != 0:
-                        out[(str(e), ATTRS[a])] = token(ident, n, e, a)
+                        # None is a value like any other: it must replace the remembered one (cache on or off)
+                        out[(str(e), ATTRS[a])] = None if (rr >> 8) % 6 == 0 else token(ident, n, e, a)
                 elif sc.get("late_result") and (e, a) == (1, 2) and typ != "time-based":
                     # the "result" of a same-time loop: only produced by the last sub-step
                     if k == settle - 1:
